@@ -2,7 +2,7 @@
    the [..._refuted] theorems.  The codecs are parameters of the model; here they are instantiated
    with a toy codec ("stored": one header byte 7, then the bytes) that satisfies [codec_ok] and
    decodes streams incrementally (a truncated input yields the prefix decoded so far). *)
-From Verif Require Import Common.Base C16.Model C16.Proofs C16.Harness C16.Check.
+From Verif Require Import Common.Base C16.Model C16.Proofs C16.Harness C16.Check C16.Link.
 From Coq Require Import String.
 
 Definition toy_enc (_ : codec) (_ : Z) (b : bytes) : bytes := 7%N :: b.
@@ -25,7 +25,7 @@ Proof. reflexivity. Qed.
 
 Definition gz (l : Z) : ccfg := {| c_type := s_gzip; c_level := l; c_hdr := None |}.
 Definition srv (mx : Z) (algs : option (list string)) (cu : list (string * option N)) : scfg :=
-  {| s_max := mx; s_algs := algs; s_custom := cu |}.
+  {| s_max := mx; s_algs := algs; s_custom := cu; s_mw := 0 |}.
 Definition rq (ce : list string) (b : bytes) : creq :=
   {| q_ce := ce; q_body := Some b; q_raw := []; q_stream := false; q_rerr := false; q_cerr := false |}.
 Definition wr (ce : list string) (b : bytes) : wreq := {| w_ce := ce; w_body := b; w_cl := blen b; w_rewind := Some b |}.
@@ -213,15 +213,40 @@ Proof. vm_compute. repeat split. Qed.
    with the handler having read one byte too many violates clause 4 (and 1) *)
 Definition obs_ok : eobs :=
   {| x_type := s_gzip; x_level := 0; x_hdr := None; x_ce := []; x_raw := []; x_body := Some [1;2;3]%N;
-     x_rerr := false; x_cerr := false; x_max := 3; x_algs := None; x_custom := []; x_dect := [];
+     x_rerr := false; x_cerr := false; x_max := 3; x_algs := None; x_custom := []; x_mw := 0; x_dect := [];
      x_client := 0; x_wce := [s_gzip]; x_wbody := [9;9]%N; x_wcl := 2;
-     x_kind := 0; x_status := 200; x_hce := []; x_cl := (-1); x_data := [1;2;3]%N; x_err := 0 |}.
+     x_kind := 0; x_status := 200; x_hce := []; x_cl := (-1); x_data := [1;2;3]%N; x_err := 0; x_views := [(0%N, ([], (-1)%Z, ([1;2;3]%N, 0%N)))] |}.
 Definition obs_bad : eobs :=
   {| x_type := s_gzip; x_level := 0; x_hdr := None; x_ce := []; x_raw := []; x_body := Some [1;2;3]%N;
-     x_rerr := false; x_cerr := false; x_max := 3; x_algs := None; x_custom := []; x_dect := [];
+     x_rerr := false; x_cerr := false; x_max := 3; x_algs := None; x_custom := []; x_mw := 0; x_dect := [];
      x_client := 0; x_wce := [s_gzip]; x_wbody := [9;9]%N; x_wcl := 2;
-     x_kind := 0; x_status := 200; x_hce := []; x_cl := (-1); x_data := [1;2;3;4]%N; x_err := 0 |}.
+     x_kind := 0; x_status := 200; x_hce := []; x_cl := (-1); x_data := [1;2;3;4]%N; x_err := 0; x_views := [] |}.
 Example ex_clause_checker :
   core_ok obs_ok = true /\ core_ok obs_bad = false /\ c_limit obs_bad = false /\ c_roundtrip obs_bad = false /\
   compresses_b obs_ok = true.
+Proof. vm_compute. repeat split. Qed.
+
+(* two configured middlewares: both run before the handler, in order, and are given the DECODED bytes; a
+   rejected request reaches none of them *)
+Example ex_middlewares :
+  server_views toy_dec toy_cdec {| s_max := 10; s_algs := None; s_custom := []; s_mw := 2 |} (wr [s_gzip] [7;1;2]%N)
+    = [(1%N, ([], (-1)%Z, ([1;2]%N, E_EOF))); (2%N, ([], (-1)%Z, ([1;2]%N, E_EOF))); (0%N, ([], (-1)%Z, ([1;2]%N, E_EOF)))] /\
+  server_views toy_dec toy_cdec {| s_max := 10; s_algs := Some [s_zstd]; s_custom := []; s_mw := 2 |} (wr [s_gzip] [7;1;2]%N) = [].
+Proof. vm_compute. split; reflexivity. Qed.
+
+(* [observe] on concrete runs of the model: a round trip through two middlewares (every field is non-trivial),
+   a rejected request, a decompression bomb; the checker accepts each, and rejects a tampered one *)
+Definition obs_rt := observe toy_enc toy_dec toy_cdec (gz 3) {| s_max := 4; s_algs := None; s_custom := []; s_mw := 2 |} (rq [] [1;2;3]%N).
+Example ex_observe :
+  eobs_ok obs_rt = true /\ x_kind obs_rt = 0%N /\ x_data obs_rt = [1;2;3]%N /\ x_wbody obs_rt = [7;1;2;3]%N /\
+  List.length (x_views obs_rt) = 3 /\ List.length (x_dect obs_rt) = 5 /\
+  eobs_ok (observe toy_enc toy_dec toy_cdec (gz 0) (srv 100 (Some [s_zstd]) []) (rq [] [1;2;3]%N)) = true /\
+  x_kind (observe toy_enc toy_dec toy_cdec (gz 0) (srv 100 (Some [s_zstd]) []) (rq [] [1;2;3]%N)) = 1%N /\
+  eobs_ok (observe toy_enc toy_dec toy_cdec {| c_type := s_none; c_level := 0; c_hdr := None |} (srv 2 None []) (rq [s_gzip] [7;1;2;3]%N)) = true /\
+  x_err (observe toy_enc toy_dec toy_cdec {| c_type := s_none; c_level := 0; c_hdr := None |} (srv 2 None []) (rq [s_gzip] [7;1;2;3]%N)) = 1%N /\
+  eobs_ok {| x_type := x_type obs_rt; x_level := x_level obs_rt; x_hdr := x_hdr obs_rt; x_ce := x_ce obs_rt; x_raw := x_raw obs_rt;
+             x_body := x_body obs_rt; x_rerr := false; x_cerr := false; x_max := x_max obs_rt; x_algs := x_algs obs_rt;
+             x_custom := x_custom obs_rt; x_mw := x_mw obs_rt; x_dect := x_dect obs_rt; x_client := 0; x_wce := x_wce obs_rt;
+             x_wbody := x_wbody obs_rt; x_wcl := x_wcl obs_rt; x_kind := 0; x_status := 200; x_hce := []; x_cl := (-1);
+             x_data := [1;2]%N; x_err := 0; x_views := x_views obs_rt |} = false.
 Proof. vm_compute. repeat split. Qed.
